@@ -338,12 +338,32 @@ func MakeForeign(r *rng.R, opts ForeignOpts) *Foreign {
 	sb.WriteString(`</w:styles>`)
 	f.put("word/styles.xml", sb.String())
 	ovr("word/styles.xml", "application/vnd.openxmlformats-officedocument.wordprocessingml.styles+xml")
-	if styleRelFirst {
+	switch {
+	case !styleRelFirst && !opts.Simple && r.Chance(1, 4):
+		// the styles part is there but the main part has no (recognisable) relationship to it
+		if r.Bool() {
+			w.feature("styles-part-without-relationship")
+		} else {
+			w.feature("styles-relationship-strict-type")
+			id := w.newID()
+			w.docRels = append(w.docRels, `<Relationship Id="`+id+`" Type="http://purl.oclc.org/ooxml/officeDocument/relationships/styles" Target="styles.xml"/>`)
+		}
+	case styleRelFirst:
 		w.ids["rId1"] = true
 		f.RelIDs = append(f.RelIDs, "rId1")
 		w.docRels = append(w.docRels, `<Relationship Id="rId1" Type="`+relT+`styles" Target="styles.xml"/>`)
-	} else {
+	default:
 		w.rel("styles", "styles.xml", false)
+	}
+	if !opts.Simple && r.Chance(1, 3) {
+		// producers commonly declare image defaults that no part uses yet
+		ext := []string{"jpg", "JPG", "jpeg", "png", "gif"}[r.Intn(5)]
+		if !addDefault[strings.ToLower(ext)] {
+			addDefault[strings.ToLower(ext)] = true
+			typ := map[string]string{"png": "image/png", "jpeg": "image/jpeg", "jpg": "image/jpeg", "gif": "image/gif"}[strings.ToLower(ext)]
+			ct = append(ct, fmt.Sprintf(`<Default Extension="%s" ContentType="%s"/>`, ext, typ))
+			w.feature("unused-default:" + ext)
+		}
 	}
 
 	// optional extra parts
